@@ -370,6 +370,27 @@ fn arb_graph() -> impl Strategy<Value = Graph> {
         .prop_map(|(n, edges, start, noise, same_suffix, declare_prefixes, tns_of)| Graph { n, edges, start, noise, same_suffix, declare_prefixes, tns_of, includes: vec![] })
 }
 
+/// Directory entry point (the one the CLI uses): an unreachable sibling `.xsd` that is not text
+/// (invalid UTF-8) must not change the outcome. Some(detail) = it did.
+fn non_text_sibling_probe(g: &Graph) -> Option<String> {
+    use crate::zeep::GenOutcome;
+    let dir = scratch_dir("c11-dir");
+    let fs = render(g);
+    fs.write_to_dir(&dir);
+    let start = dir.join(&fs.start);
+    let before = crate::zeep::generate_from_dir(&start);
+    std::fs::write(dir.join("zz-binary.xsd"), [0xffu8, 0xfe, 0x00, 0x41, 0xc3, 0x28]).unwrap();
+    let after = crate::zeep::generate_from_dir(&start);
+    let _ = std::fs::remove_dir_all(&dir);
+    match (&before, &after) {
+        (GenOutcome::Ok(a), GenOutcome::Ok(b)) if a == b => None,
+        (GenOutcome::Ok(_), GenOutcome::Ok(_)) => Some("output text differs once the sibling exists".into()),
+        (GenOutcome::Ok(_), GenOutcome::ReadErr(e)) | (GenOutcome::Ok(_), GenOutcome::WriteErr(e)) => Some(format!("generation succeeds without the sibling and fails with it: {e}")),
+        (GenOutcome::Ok(_), GenOutcome::Panic(e)) => Some(format!("generation succeeds without the sibling and panics with it: {e}")),
+        _ => None, // not generated without the sibling either: nothing to compare
+    }
+}
+
 pub fn run(tier: Tier) -> i32 {
     let findings = Findings::load();
     findings.print_fixed("C11");
@@ -377,7 +398,7 @@ pub fn run(tier: Tier) -> i32 {
         "C11",
         tier,
         "exploration",
-        "import graphs: EXHAUSTIVE over all directed graphs with self-loops on 1..=3 files (quick) / 1..=4 files (thorough) x every start file, each file declaring a complex type, a simple type and an anonymous-typed global element with names unique to it, in four namespace styles (distinct or colliding three-letter abbreviations x importer declares prefixes for what it imports or not) and with one namespace split over two files; proptest-generated graphs on 5-8 files with repeated imports; every 3-file graph of one namespace with one or two xs:include edges added (include-only files: at most once, no noise variants); every graph with unreachable files is also run with those files removed / replaced by malformed and non-schema XML / replaced by other schemas (together with siblings whose names differ from reachable files' names in letter case only), and the output must be byte-identical. Each generation runs in an isolated worker process (exit class + wall time). Oracle: BFS reachability => expected multiset of struct names (syn). Non-trivial: graph with a cycle, a self-import, a diamond or an unreachable sibling; distinct by (edges, start, noise).",
+        "import graphs: EXHAUSTIVE over all directed graphs with self-loops on 1..=3 files (quick) / 1..=4 files (thorough) x every start file, each file declaring a complex type, a simple type and an anonymous-typed global element with names unique to it, in four namespace styles (distinct or colliding three-letter abbreviations x importer declares prefixes for what it imports or not) and with one namespace split over two files; proptest-generated graphs on 5-8 files with repeated imports; every 3-file graph of one namespace with one or two xs:include edges added (include-only files: at most once, no noise variants); every graph with unreachable files is also run with those files removed / replaced by malformed and non-schema XML / replaced by other schemas (together with siblings whose names differ from reachable files' names in letter case only), and the output must be byte-identical; acyclic graphs are also read through the directory entry point with and without a non-text (invalid UTF-8) unreachable sibling. Each generation runs in an isolated worker process (exit class + wall time). Oracle: BFS reachability => expected multiset of struct names (syn). Non-trivial: graph with a cycle, a self-import, a diamond or an unreachable sibling; distinct by (edges, start, noise).",
     );
     ev.assume("struct names are read from the output with syn (text scan if the output does not parse)");
     let nmax = tier.pick(3, 4);
@@ -495,6 +516,19 @@ pub fn run(tier: Tier) -> i32 {
         }
         lo = hi;
     }
+    // directory entry point with a non-text unreachable sibling, on the acyclic graphs of up to 3 files
+    let mut probed = 0usize;
+    for g in graphs[..exhaustive_n].iter().filter(|g| g.n <= 3 && g.tns_of.is_empty() && !g.same_suffix && !g.declare_prefixes && g.edges.iter().enumerate().all(|(i, e)| e.iter().all(|j| *j > i))) {
+        probed += 1;
+        ev.class("directory-probe.non-text-sibling");
+        if let Some(detail) = non_text_sibling_probe(g) {
+            let sig = "C11 unreachable-sibling-changes-output:NonTextSibling".to_string();
+            if reported.insert(sig.clone()) {
+                route_failure(&mut ev, &findings, "import-graph-directory", &sig, json!({"graph": g, "probe": "non-text-sibling", "detail": detail}));
+            }
+        }
+    }
+    ev.extra.insert("directory_probes".into(), json!(probed));
     ev.exhaustive = Some(true);
     ev.extra.insert("exhaustive_graphs".into(), json!(exhaustive_n));
     ev.extra.insert("exhaustive_up_to_files".into(), json!(nmax));
@@ -505,6 +539,15 @@ pub fn run(tier: Tier) -> i32 {
 
 pub fn replay(case: &serde_json::Value) -> i32 {
     let g: Graph = serde_json::from_value(case["graph"].clone()).expect("C11 replay graph");
+    if case["probe"] == "non-text-sibling" {
+        let bad = non_text_sibling_probe(&g);
+        println!("graph {g:?}\ndirectory probe -> {bad:?}");
+        if bad.is_some() {
+            println!("VIOLATION property=C11 replay=(this file)");
+            return 1;
+        }
+        return 0;
+    }
     let out = worker::run_single(&render(&g));
     let mut bad = judge(&g, &out);
     if bad.is_none() && g.noise != Noise::None {
